@@ -306,7 +306,7 @@ def main_check(prop, tier, seed, replay_path=None, jobs=None):
     replay_files = []
     for mech, v in sorted(known_seen.items()):
         lines.append("KNOWN-FINDING: property=%s %s [%s; %d occurrence(s) this run; e.g. %s]" % (
-            prop, known_by_mech[mech]["what_fails"], mech, per_mech.get(mech, 1), short(v["message"], 200)))
+            prop, known_by_mech[mech]["what_fails"], mech, per_mech.get(mech, 1), short(v["message"], 200).replace("\n", " | ")))
     seen_mech = {}
     for v in unlisted:
         n = seen_mech.get(v["mechanism"], 0)
@@ -320,7 +320,7 @@ def main_check(prop, tier, seed, replay_path=None, jobs=None):
                        "payload": payload_pack(v.get("payload"))}, f, indent=1)
         replay_files.append(path)
         lines.append("VIOLATION property=%s replay=%s" % (prop, path))
-        lines.append("  mechanism=%s (%d occurrence(s)): %s" % (v["mechanism"], per_mech.get(v["mechanism"], 1), short(v["message"], 600)))
+        lines.append("  mechanism=%s (%d occurrence(s)): %s" % (v["mechanism"], per_mech.get(v["mechanism"], 1), short(v["message"], 600).replace("\n", " | ")))
     for reason in inconclusive[:12]:
         lines.append("INCONCLUSIVE property=%s %s" % (prop, short(reason, 500).replace("\n", " | ")))
 
